@@ -51,6 +51,29 @@ mod types {
         Alpha(i16, String),
     }
 
+    /// a client type whose `Clone` is shallow: results that share it share state
+    #[derive(Debug, Clone, Default)]
+    pub struct SharedLog(pub std::sync::Arc<std::sync::Mutex<Vec<u8>>>);
+    impl BinarySerializer for SharedLog {
+        fn serialize<O: BinaryOutput>(&self, context: &mut SerializationContext<O>) -> desert::Result<()> {
+            let v = self.0.lock().unwrap().clone();
+            v.serialize(context)
+        }
+    }
+    impl BinaryDeserializer for SharedLog {
+        fn deserialize(context: &mut DeserializationContext<'_>) -> desert::Result<Self> {
+            Ok(SharedLog(std::sync::Arc::new(std::sync::Mutex::new(Vec::<u8>::deserialize(context)?))))
+        }
+    }
+
+    #[derive(Debug, Clone, BinaryCodec)]
+    #[evolution(FieldAdded("log", SharedLog::default()), FieldAdded("seen", Vec::new()))]
+    pub struct Audited {
+        pub id: u8,
+        pub log: SharedLog,
+        pub seen: Vec<String>,
+    }
+
     #[derive(Debug, PartialEq, Clone, BinaryCodec)]
     pub struct Plain {
         pub a: u8,
@@ -68,6 +91,7 @@ mod types {
 
     /// deduplicated strings inside a record whose header carries removed-field names (the names are
     /// deduplicated strings of the same stream)
+    #[cfg(not(feature = "reduced"))]
     #[derive(BinaryCodec)]
     #[evolution(FieldRemoved("legacy"), FieldAdded("third", DeduplicatedString(String::new())), FieldRemoved("older"), FieldMadeTransient("cache"))]
     pub struct Tagged {
@@ -143,6 +167,7 @@ mod types {
         }
     }
 
+    #[cfg(not(feature = "reduced"))]
     #[derive(BinaryCodec)]
     #[evolution(FieldAdded("f", Fragile { text: String::new(), fail: false }), FieldAdded("z", 0u8))]
     pub struct Brittle {
@@ -249,6 +274,7 @@ fn plain(k: u8) -> Plain {
     }
 }
 
+#[cfg(not(feature = "reduced"))]
 fn tagged(k: usize) -> Tagged {
     let d = |s: &str| DeduplicatedString(s.to_string());
     match k % 3 {
@@ -257,6 +283,7 @@ fn tagged(k: usize) -> Tagged {
         _ => Tagged { first: d("x"), second: d("legacy"), third: d("x"), cache: 3 },
     }
 }
+#[cfg(not(feature = "reduced"))]
 fn tagged_result(r: desert::Result<Tagged>) -> String {
     match r {
         Ok(t) => format!("ok:{} {} {} {}", t.first.0, t.second.0, t.third.0, t.cache),
@@ -288,7 +315,7 @@ fn frame_result(level: u32, n: usize) -> String {
 /// built-in generic codecs at several instantiations each (so that state hidden in generic code - a
 /// static shared by all instantiations, a per-thread memo - is met in more than one order)
 pub const N_ADT: usize = 54;
-pub const NSPECS: usize = N_ADT + 52;
+pub const NSPECS: usize = N_ADT + 54;
 
 /// two calls out of three come from the derived-type specs
 pub fn pick_spec() -> usize {
@@ -348,8 +375,11 @@ fn builtin(k: usize) -> String {
         24 => round(&BTreeSet::from([3i32, -3])),
         25 => round(&HashSet::from(["only".to_string()])),
         26 => round(&Box::new(77u32)),
+        #[cfg(not(feature = "reduced"))]
         27 => round(&Rc::new("rc".to_string())),
+        #[cfg(not(feature = "reduced"))]
         28 => round(&Arc::new(vec![1u8, 2])),
+        #[cfg(not(feature = "reduced"))]
         29 => round(&(1u8, 2u16, 3u32)),
         30 => round(&("l".to_string(), "l".to_string())),
         31 => round(&'\u{20AC}'),
@@ -375,6 +405,17 @@ fn builtin(k: usize) -> String {
         // decoders of the generic containers on fixed bytes (unknown-length form, byte form)
         50 => dec::<Vec<u16>>(&[1, 1, 0, 5, 1, 0, 6, 0]),
         51 => dec::<(Vec<u8>, [u8; 2], Vec<i8>)>(&[0, 2, 1, 2, 2, 3, 4, 4, 0xff, 0x7f]),
+        // old data read by a definition with added fields: the defaults are this call's own (the
+        // caller appends to what it got; a later call must not see that)
+        52 | 53 => match desert::deserialize::<Audited>(&[0, 7 + (k as u8 - 52)]) {
+            Ok(mut a) => {
+                a.log.0.lock().unwrap().push(1);
+                a.seen.push("seen".into());
+                let n = a.log.0.lock().unwrap().len();
+                format!("ok:{} log={} seen={:?}", a.id, n, a.seen)
+            }
+            Err(e) => format!("err:{e:?}"),
+        },
         _ => panic!("no built-in call spec {k}"),
     }
 }
@@ -414,8 +455,11 @@ fn call_inner(i: usize) -> String {
         25 => dec::<Outer>(&[0]),
         26 => dec::<(u16, Option<Pt>)>(&[0, 0, 7, 0]),
         // writes that fail half way, and what follows them
+        #[cfg(not(feature = "reduced"))]
         27 => enc(&Brittle { a: 1, f: Fragile { text: "stale bytes that must not leak".into(), fail: true }, s: "s".into(), z: 9 }, 0),
+        #[cfg(not(feature = "reduced"))]
         28 => enc(&Brittle { a: 1, f: Fragile { text: "stale bytes that must not leak".into(), fail: true }, s: "s".into(), z: 9 }, 1),
+        #[cfg(not(feature = "reduced"))]
         29 => enc(&Brittle { a: 2, f: Fragile { text: "fine".into(), fail: false }, s: "t".into(), z: 3 }, 1),
         30 => enc(&("héllo".to_string(), '\u{1F600}'), 1),
         31 => enc(&(42u32, "after".to_string()), 1),
@@ -426,7 +470,9 @@ fn call_inner(i: usize) -> String {
             enc(&SharedPair(a.clone(), b, a), i)
         }
         // deduplicated strings next to removed-field names of the header
+        #[cfg(not(feature = "reduced"))]
         34..=36 => enc(&tagged(i), i),
+        #[cfg(not(feature = "reduced"))]
         37..=39 => tagged_result(desert::serialize_to_byte_vec(&tagged(i)).and_then(|b| desert::deserialize::<Tagged>(&b))),
         // a deep self-nesting value
         40 => round(&chain(50)),
@@ -456,6 +502,7 @@ fn call_inner(i: usize) -> String {
             }
             b
         }),
+        #[cfg(not(feature = "reduced"))]
         53 => tagged_result(desert::deserialize::<Tagged>(&{
             let mut b = desert::serialize_to_byte_vec(&tagged(0)).unwrap();
             // "legacy" -> "second": another removed-field name of the same length
@@ -464,6 +511,11 @@ fn call_inner(i: usize) -> String {
             }
             b
         })),
+        // the `reduced` build (taken by the supervisor when the full scenario does not compile against
+        // the tree under test) leaves out the two derived declarations whose added fields have types
+        // without Clone / Debug / PartialEq
+        #[cfg(feature = "reduced")]
+        27..=29 | 34..=39 | 53 => "skipped in the reduced build".to_string(),
         _ if i < NSPECS => builtin(i - N_ADT),
         _ => panic!("no call spec {i}"),
     }
